@@ -60,7 +60,8 @@ def c17_1(ctx):
     r = gi.f_or(*[e.reach for e in hs])
     atom = ("op", "%s is None" % msgp)
     ops = gi.f_opaques(r) if r not in (True, False) else []
-    ctx.check(sym._equiv(r, gi.f_not(atom)), "message-presence-test", ctx.where(f), "verify_message hashes the message under `%s`; an empty message is still a message: the digest must be chosen by `message is not None` alone" % ops, sample={"guards": ops})
+    r_dec = gi.f_or(*[e.reach for e in dec])        # of the calls that get as far as decoding, exactly those with a message hash it
+    ctx.check(sym._equiv(r, gi.f_and(r_dec, gi.f_not(atom))), "message-presence-test", ctx.where(f), "verify_message hashes the message under `%s`; an empty message is still a message: the digest must be chosen by `message is not None` alone" % ops, sample={"guards": ops})
     _refcheck(ctx, "MessageSigner.verify_message", "ms_verify_message", "verify-pipeline")
 
 
